@@ -173,6 +173,19 @@ func c04monitor(cw *caseWriter) func(tag string, in, obs []uint64) {
 							cw.monitor("C04", tag, "success-but-log-differs-from-request", "event %d: index %d holds %v, sent %v", i-1, e[0], pe, e)
 						}
 					}
+					// "its log then equals the leader's through the last entry sent": no hole below it
+					if len(next.log) > 0 {
+						top := a.pi
+						if n := len(a.entries); n > 0 {
+							top = a.entries[n-1][0]
+						}
+						for idx := next.log[0][0]; idx <= top; idx++ {
+							if _, ok := post[idx]; !ok {
+								cw.monitor("C04", tag, "success-but-log-has-a-hole-below-last-sent", "event %d: index %d is missing, acknowledged through %d", i-1, idx, top)
+								break
+							}
+						}
+					}
 					// nothing retained above the last entry sent may contradict it: terms monotone
 					var prevT uint64
 					for _, e := range next.log {
@@ -184,6 +197,10 @@ func c04monitor(cw *caseWriter) func(tag string, in, obs []uint64) {
 					if next.sc[sCommit] > max64(next.sc[sLastLogIdx], next.sc[sLastSnapIdx]) {
 						cw.monitor("C05", tag, "commit-index-above-last-index", "event %d", i-1)
 					}
+				}
+				// the cached last log never names an index above everything the store holds
+				if n := len(next.log); n > 0 && next.sc[sLastLogIdx] > next.log[n-1][0] {
+					cw.monitor("C04", tag, "cached-last-log-above-the-store", "event %d: cached last index %d, store ends at %d", i-1, next.sc[sLastLogIdx], next.log[n-1][0])
 				}
 				if !rebooted && next.sc[sCommit] < cur.sc[sCommit] {
 					cw.monitor("C05", tag, "commit-index-decreased", "event %d: %d -> %d", i-1, cur.sc[sCommit], next.sc[sCommit])
